@@ -19,7 +19,7 @@ use ignore::{
 };
 use serde_json::{json, Value};
 
-use crate::{core::*, sched};
+use crate::{core::*, proto, sched};
 
 const HORIZON: usize = 4000;
 
@@ -162,6 +162,36 @@ pub struct Fixture {
     base: PathBuf,
     /// expected visited paths (relative to the scratch base), as a multiset
     pub expected: Vec<String>,
+    /// the same tree as the protocol model sees it (children in readdir order)
+    pub ptree: proto::PTree,
+}
+
+fn build_ptree(base: &Path, roots: &[PathBuf]) -> proto::PTree {
+    let mut t = proto::PTree { names: vec![], is_dir: vec![], kids: vec![], roots: vec![] };
+    fn add(t: &mut proto::PTree, base: &Path, path: &Path) -> u8 {
+        let id = t.names.len();
+        if id >= 250 {
+            machinery_error("tree too large for the protocol model");
+        }
+        t.names.push(path.strip_prefix(base).unwrap_or(path).to_string_lossy().to_string());
+        let is_dir = path.is_dir();
+        t.is_dir.push(is_dir);
+        t.kids.push(vec![]);
+        if is_dir {
+            let rd = std::fs::read_dir(path).unwrap_or_else(|_| machinery_error("cannot list scratch dir"));
+            for e in rd {
+                let e = e.unwrap_or_else(|_| machinery_error("cannot list scratch dir"));
+                let k = add(t, base, &e.path());
+                t.kids[id].push(k);
+            }
+        }
+        id as u8
+    }
+    for r in roots {
+        let id = add(&mut t, base, r);
+        t.roots.push(id);
+    }
+    t
 }
 
 impl Fixture {
@@ -182,7 +212,8 @@ impl Fixture {
         }
         expected.sort();
         let base = scratch.path.clone();
-        Fixture { _scratch: scratch, roots, base, expected }
+        let ptree = build_ptree(&base, &roots);
+        Fixture { _scratch: scratch, roots, base, expected, ptree }
     }
 }
 
@@ -307,12 +338,16 @@ pub struct Unit {
     /// root itself belongs to k == 0
     pub k: usize,
     pub m: usize,
+    /// a protocol-model unit (E4): explore the model for this configuration
+    /// (rbound = Retry budget) and replay share k of m of its covering
+    /// schedules on the implementation
+    pub model: bool,
 }
 
 impl Unit {
     fn to_line(&self) -> String {
         format!(
-            "{} {} {} {} {} {} {} {}",
+            "{} {} {} {} {} {} {} {} {}",
             if self.tree.text.is_empty() { "-" } else { &self.tree.text },
             self.tree.roots,
             self.workers,
@@ -320,7 +355,8 @@ impl Unit {
             self.pbound,
             self.rbound,
             self.k,
-            self.m
+            self.m,
+            if self.model { "M" } else { "E" }
         )
     }
     fn from_line(l: &str) -> Unit {
@@ -334,6 +370,7 @@ impl Unit {
             rbound: f[5].parse().unwrap(),
             k: f[6].parse().unwrap(),
             m: f[7].parse().unwrap(),
+            model: f.get(8) == Some(&"M"),
         }
     }
 }
@@ -351,6 +388,22 @@ pub struct UnitResult {
     pub with_retry: u64,
     pub max_preemptions: usize,
     pub violations: Vec<Value>,
+    /// implementation traces replayed through the protocol model
+    pub conform_ok: u64,
+    pub conform_fail: u64,
+    pub drift: Vec<String>,
+    pub model_states: u64,
+    pub model_transitions: u64,
+    pub model_spin_transitions: u64,
+    pub model_terminal_states: u64,
+    pub model_cyclic_components: u64,
+    pub model_max_depth: u64,
+    pub model_capped: u64,
+    pub model_configs: u64,
+    pub model_paths_replayed: u64,
+    pub model_states_covered_by_replay: u64,
+    pub model_replay_capped: u64,
+    pub slowest: Vec<(u64, String)>,
 }
 
 /// Abstract states along a trace: per worker (last point, pushes, visits),
@@ -473,6 +526,9 @@ fn account(fx: &Fixture, u: &Unit, node: &sched::Node, out: &Outcome, res: &mut 
         res.with_retry += 1;
     }
     res.max_preemptions = res.max_preemptions.max(node.preemptions);
+    if std::env::var("VERIF_C07_DEBUG_NO_CONF").is_err() {
+        conformance(fx, u, out, res);
+    }
     if res.outcomes.len() < 20000 {
         res.outcomes.insert(format!("{}#{}", u.to_line().split_whitespace().take(4).collect::<Vec<_>>().join(" "), outcome_key(out)));
     }
@@ -496,6 +552,150 @@ fn account(fx: &Fixture, u: &Unit, node: &sched::Node, out: &Outcome, res: &mut 
             "trace": sched::render(&out.trace),
         }));
     }
+}
+
+/// Trace inclusion: the implementation's trace must be a behaviour of the
+/// protocol model (same worker, same next point, same visits, same enabled
+/// set at every decision). A failure is model drift, never a verdict.
+fn conformance(fx: &Fixture, u: &Unit, out: &Outcome, res: &mut UnitResult) {
+    if out.panicked && out.abort.is_none() {
+        return;
+    }
+    let p = proto::Params { workers: u.workers, quit_at: u.quit_at, retry_budget: 255, mutant: 0 };
+    match proto::replay_trace(&fx.ptree, &p, &out.trace) {
+        Ok(fin) => {
+            let mut ok = true;
+            if out.abort.is_none() && out.done {
+                // final observations agree as well
+                let mut got: Vec<String> = out.visited.iter().map(|(_, p)| p.clone()).collect();
+                got.sort();
+                let mut want: Vec<String> = vec![];
+                for (i, c) in fin.visited.iter().enumerate() {
+                    for _ in 0..*c {
+                        want.push(fx.ptree.names[i].clone());
+                    }
+                }
+                want.sort();
+                if got != want || !fin.pcs.iter().all(|p| *p == proto::Pc::Exit) {
+                    ok = false;
+                    if res.drift.len() < 3 {
+                        res.drift.push(format!("final state: implementation visited {:?}, model {:?}, model pcs {:?}", got, want, fin.pcs));
+                    }
+                }
+            }
+            if ok {
+                res.conform_ok += 1;
+            } else {
+                res.conform_fail += 1;
+            }
+        }
+        Err(e) => {
+            res.conform_fail += 1;
+            if res.drift.len() < 3 {
+                res.drift.push(format!("tree {:?} roots {} workers {} quit {:?}: {}", u.tree.text, u.tree.roots, u.workers, u.quit_at, e));
+            }
+        }
+    }
+}
+
+/// E4: explore the protocol model for this unit's configuration over ALL
+/// interleavings, then execute share k of m of its covering schedules on the
+/// implementation and replay the traces through the model.
+pub fn model_unit(u: &Unit) -> UnitResult {
+    let fx = Fixture::new(&u.tree);
+    let mut res = UnitResult::default();
+    let p = proto::Params { workers: u.workers, quit_at: u.quit_at, retry_budget: u.rbound as u8, mutant: 0 };
+    let cap = 3_000_000;
+    if u.k == 0 {
+        let ex = proto::explore(&fx.ptree, &p, cap);
+        res.model_configs = 1;
+        res.model_states = ex.states as u64;
+        res.model_transitions = ex.transitions as u64;
+        res.model_spin_transitions = ex.spin_transitions as u64;
+        res.model_terminal_states = ex.terminal_states as u64;
+        res.model_cyclic_components = ex.nontrivial_sccs as u64;
+        res.model_max_depth = ex.max_depth as u64;
+        res.model_capped = ex.capped as u64;
+        // a model-level violation counts only if the implementation shows it
+        for mv in ex.violations.iter() {
+            match proto::to_schedule(&fx.ptree, &p, &mv.path) {
+                None => res.drift.push(format!("model violation ({}) on a path the scheduler cannot replay", mv.why)),
+                Some(sch) => {
+                    let node = sched::Node { prefix: sch.prefix.clone(), retry_at: sch.retry_at.clone(), retry_from: 0, preemptions: 0 };
+                    let out = execute(&fx, u.workers, u.quit_at, &node);
+                    match judge(&fx, u.quit_at, &out) {
+                        Some(why) => res.violations.push(json!({
+                            "kind": "schedule", "found_by": "protocol model (all interleavings), confirmed on the implementation",
+                            "why": why, "model_why": mv.why,
+                            "tree": u.tree.text, "roots": u.tree.roots, "workers": u.workers,
+                            "quit_at": u.quit_at, "prefix": sch.prefix, "retry_at": sch.retry_at, "preemptions": -1,
+                            "abort": sched::abort_name(out.abort),
+                            "visited": out.visited.iter().map(|(w, p)| format!("w{}:{}", w.map_or(9, |w| w), p)).collect::<Vec<_>>(),
+                            "expected": fx.expected,
+                            "trace": sched::render(&out.trace),
+                        })),
+                        None => res.drift.push(format!("the model reports '{}' but the implementation does not show it on that schedule", mv.why)),
+                    }
+                }
+            }
+        }
+    }
+    // model -> implementation: covering schedules
+    let max_paths = 200_000;
+    let (schedules, covered, capped) = proto::covering_schedules(&fx.ptree, &p, max_paths, u.k, u.m);
+    if u.k == 0 {
+        res.model_states_covered_by_replay = covered as u64;
+        res.model_replay_capped = capped as u64;
+    }
+    let pconf = proto::Params { workers: u.workers, quit_at: u.quit_at, retry_budget: 255, mutant: 0 };
+    for sch in schedules.iter() {
+        let node = sched::Node { prefix: sch.prefix.clone(), retry_at: sch.retry_at.clone(), retry_from: 0, preemptions: 0 };
+        let out = execute(&fx, u.workers, u.quit_at, &node);
+        res.model_paths_replayed += 1;
+        res.executions += 1;
+        if out.abort == Some(Abort::Diverged) {
+            res.conform_fail += 1;
+            if res.drift.len() < 3 {
+                res.drift.push(format!("a model path is not a schedule of the implementation (diverged): workers {:?}", sch.workers));
+            }
+            continue;
+        }
+        // the implementation must have followed the model's path ...
+        let chosen: Vec<usize> = out.trace.steps().filter(|s| !s.enabled.is_empty()).map(|s| s.enabled[s.choice]).take(sch.workers.len()).collect();
+        if chosen != sch.workers {
+            res.conform_fail += 1;
+            if res.drift.len() < 3 {
+                res.drift.push(format!("the implementation scheduled {:?} where the model path has {:?}", chosen, sch.workers));
+            }
+            continue;
+        }
+        // ... and the whole run must be a behaviour of the model
+        match proto::replay_trace(&fx.ptree, &pconf, &out.trace) {
+            Ok(_) => res.conform_ok += 1,
+            Err(e) => {
+                res.conform_fail += 1;
+                if res.drift.len() < 3 {
+                    res.drift.push(format!("model path replayed on the implementation: {}", e));
+                }
+            }
+        }
+        if let Some(why) = judge(&fx, u.quit_at, &out) {
+            res.violations.push(json!({
+                "kind": "schedule", "found_by": "covering schedule of the protocol model",
+                "why": why,
+                "tree": u.tree.text, "roots": u.tree.roots, "workers": u.workers,
+                "quit_at": u.quit_at, "prefix": sch.prefix, "retry_at": sch.retry_at, "preemptions": -1,
+                "abort": sched::abort_name(out.abort),
+                "visited": out.visited.iter().map(|(w, p)| format!("w{}:{}", w.map_or(9, |w| w), p)).collect::<Vec<_>>(),
+                "expected": fx.expected,
+                "trace": sched::render(&out.trace),
+            }));
+            if res.violations.len() >= 5 {
+                break;
+            }
+        }
+    }
+    res
 }
 
 // ---------------------------------------------------------------------------
@@ -527,7 +727,9 @@ pub fn worker_main() -> ! {
         let u = Unit::from_line(&line);
         let ticker = std::thread::spawn(|| {});
         let _ = ticker.join();
+        let started = std::time::Instant::now();
         let res = explore_unit_progress(&u, &PROGRESS);
+        let unit_ms = started.elapsed().as_millis() as u64;
         let states: Vec<String> = res.states.iter().map(|h| format!("{:x}", h)).collect();
         let v = json!({
             "executions": res.executions, "steps": res.steps, "states": states,
@@ -536,6 +738,14 @@ pub fn worker_main() -> ! {
             "with_last_idle_broadcast": res.with_last_idle_broadcast, "with_quit_domino": res.with_quit_domino,
             "with_retry": res.with_retry, "max_preemptions": res.max_preemptions,
             "violations": res.violations,
+            "unit_ms": unit_ms,
+            "conform_ok": res.conform_ok, "conform_fail": res.conform_fail, "drift": res.drift,
+            "model_states": res.model_states, "model_transitions": res.model_transitions,
+            "model_spin_transitions": res.model_spin_transitions, "model_terminal_states": res.model_terminal_states,
+            "model_cyclic_components": res.model_cyclic_components, "model_max_depth": res.model_max_depth,
+            "model_capped": res.model_capped, "model_configs": res.model_configs,
+            "model_paths_replayed": res.model_paths_replayed,
+            "model_states_covered_by_replay": res.model_states_covered_by_replay, "model_replay_capped": res.model_replay_capped,
         });
         let mut o = stdout.lock();
         let _ = writeln!(o, "{}", v);
@@ -547,7 +757,7 @@ pub fn worker_main() -> ! {
 fn explore_unit_progress(u: &Unit, progress: &AtomicU64) -> UnitResult {
     // explore_unit with a progress tick per unit is enough: units are small.
     progress.fetch_add(1, Ordering::SeqCst);
-    let r = explore_unit(u);
+    let r = if u.model { model_unit(u) } else { explore_unit(u) };
     progress.fetch_add(1, Ordering::SeqCst);
     r
 }
@@ -558,6 +768,7 @@ fn explore_unit_progress(u: &Unit, progress: &AtomicU64) -> UnitResult {
 pub struct Plan {
     pub units: Vec<Unit>,
     pub description: String,
+    pub model_description: String,
 }
 
 fn visit_count(spec: &TreeSpec) -> usize {
@@ -573,7 +784,7 @@ pub fn plan(tier: Tier) -> Plan {
     let m = 8usize;
     let mut add = |tree: &TreeSpec, workers: usize, quit_at: Option<usize>, pb: usize, rb: usize| {
         for k in 0..m {
-            units.push(Unit { tree: tree.clone(), workers, quit_at, pbound: pb, rbound: rb, k, m });
+            units.push(Unit { tree: tree.clone(), workers, quit_at, pbound: pb, rbound: rb, k, m, model: false });
         }
     };
     let (max_nodes, two_roots) = tier.pick((3, 2), (4, 3));
@@ -581,7 +792,7 @@ pub fn plan(tier: Tier) -> Plan {
     // (workers, preemption bound, retry bound) for no-quit runs and for quit runs
     let cfg: Vec<(usize, usize, usize, usize)> = match tier {
         // workers, pbound(no quit), rbound, pbound(quit)
-        Tier::Quick => vec![(2, 2, 1, 2), (3, 1, 1, 1)],
+        Tier::Quick => vec![(2, 2, 1, 2), (3, 1, 0, 1)],
         Tier::Thorough => vec![(2, 3, 1, 2), (3, 2, 1, 1), (4, 1, 0, 1)],
     };
     for spec in specs.iter() {
@@ -589,6 +800,33 @@ pub fn plan(tier: Tier) -> Plan {
             add(spec, w, None, pb, rb);
             for q in 0..visit_count(spec) {
                 add(spec, w, Some(q), pbq, 0);
+            }
+        }
+    }
+    // E4: the protocol model over all interleavings, per (tree, workers, quit index)
+    let model_cfg: Vec<(usize, usize, usize, usize)> = match tier {
+        // workers, Retry budget, largest tree (entries below the root), and the
+        // share 1/d of the model's covering schedules replayed on the
+        // implementation (the model exploration itself is always complete)
+        Tier::Quick => vec![(2, 1, 3, 1), (3, 1, 2, 10)],
+        Tier::Thorough => vec![(2, 2, 4, 1), (3, 1, 3, 1), (4, 1, 2, 4)],
+    };
+    let mm = 4usize;
+    for spec in specs.iter() {
+        if std::env::var("VERIF_C07_DEBUG_NO_MODEL").is_ok() {
+            break;
+        }
+        let entries = visit_count(spec) / spec.roots - 1;
+        for &(w, rb, maxn, d) in model_cfg.iter() {
+            if entries > maxn {
+                continue;
+            }
+            let mut quits: Vec<Option<usize>> = vec![None];
+            quits.extend((0..visit_count(spec)).map(Some));
+            for q in quits {
+                for k in 0..mm {
+                    units.push(Unit { tree: spec.clone(), workers: w, quit_at: q, pbound: 0, rbound: rb, k, m: mm * d, model: true });
+                }
             }
         }
     }
@@ -600,7 +838,11 @@ pub fn plan(tier: Tier) -> Plan {
         cfg.iter().map(|c| format!("({},{},{})", c.0, c.1, c.2)).collect::<Vec<_>>().join(" "),
         cfg.iter().map(|c| format!("({},{})", c.0, c.3)).collect::<Vec<_>>().join(" "),
     );
-    Plan { units, description }
+    let model_description = format!(
+        "protocol model (E4): for every tree with at most N entries, (workers, Steal::Retry budget, N, d) in {}, without a quit and with a visitor Quit at every visit index; 1/d of the model's covering schedules are executed on the implementation",
+        model_cfg.iter().map(|c| format!("({},{},{},{})", c.0, c.1, c.2, c.3)).collect::<Vec<_>>().join(" ")
+    );
+    Plan { units, description, model_description }
 }
 
 pub fn run(args: &Args) -> ! {
@@ -614,8 +856,11 @@ pub fn run(args: &Args) -> ! {
     let mut verdict = Verdict::new("C07");
     let plan = plan(args.tier);
     let nunits = plan.units.len();
-    let queue = Arc::new(Mutex::new(plan.units.clone().into_iter().enumerate().collect::<Vec<_>>()));
-    queue.lock().unwrap().reverse();
+    // longest units first (more workers, larger trees), so that the tail of
+    // the run is made of short units
+    let mut ordered: Vec<(usize, Unit)> = plan.units.clone().into_iter().enumerate().collect();
+    ordered.sort_by_key(|(i, u)| (u.workers, visit_count(&u.tree), u.quit_at.is_none(), usize::MAX - *i));
+    let queue = Arc::new(Mutex::new(ordered));
     let exe = std::env::current_exe().unwrap_or_else(|_| machinery_error("no current_exe"));
     let nproc = ncpu();
     let total = Arc::new(Mutex::new(UnitResult::default()));
@@ -676,10 +921,33 @@ pub fn run(args: &Args) -> ! {
                     for viol in v["violations"].as_array().into_iter().flatten() {
                         t.violations.push(viol.clone());
                     }
+                    let g = |k: &str| v[k].as_u64().unwrap_or(0);
+                    t.slowest.push((g("unit_ms"), u.to_line()));
+                    t.slowest.sort();
+                    t.slowest.reverse();
+                    t.slowest.truncate(8);
+                    t.conform_ok += g("conform_ok");
+                    t.conform_fail += g("conform_fail");
+                    for d in v["drift"].as_array().into_iter().flatten() {
+                        if let (Some(d), true) = (d.as_str(), t.drift.len() < 5) {
+                            t.drift.push(d.to_string());
+                        }
+                    }
+                    t.model_states += g("model_states");
+                    t.model_transitions += g("model_transitions");
+                    t.model_spin_transitions += g("model_spin_transitions");
+                    t.model_terminal_states += g("model_terminal_states");
+                    t.model_cyclic_components += g("model_cyclic_components");
+                    t.model_max_depth = t.model_max_depth.max(g("model_max_depth"));
+                    t.model_capped += g("model_capped");
+                    t.model_configs += g("model_configs");
+                    t.model_paths_replayed += g("model_paths_replayed");
+                    t.model_states_covered_by_replay += g("model_states_covered_by_replay");
+                    t.model_replay_capped += g("model_replay_capped");
                     *by_cfg
                         .lock()
                         .unwrap()
-                        .entry(format!("workers={} quit={}", u.workers, u.quit_at.is_some()))
+                        .entry(format!("{}workers={} quit={}", if u.model { "model-path replays " } else { "" }, u.workers, u.quit_at.is_some()))
                         .or_insert(0) += v["executions"].as_u64().unwrap_or(0);
                 }
                 drop(cin);
@@ -708,8 +976,56 @@ pub fn run(args: &Args) -> ! {
             machinery_error("C07: a mandatory coverage counter is zero (steal / idle re-activation / last-idle broadcast)");
         }
     }
-    ev.set("states", t.states.len());
-    ev.set("transitions", t.steps);
+    // self-test of the model exploration's oracles: three deliberately broken
+    // protocol variants must each be rejected, the real protocol accepted
+    let selftest = {
+        let tree = proto::PTree {
+            names: vec!["r".into(), "r/a".into(), "r/b".into()],
+            is_dir: vec![true, false, false],
+            kids: vec![vec![1, 2], vec![], vec![]],
+            roots: vec![0],
+        };
+        let mut found = vec![];
+        for mutant in 0..=3u8 {
+            let p = proto::Params { workers: 3, quit_at: None, retry_budget: 0, mutant };
+            let ex = proto::explore(&tree, &p, 2_000_000);
+            found.push((mutant, ex.violations.first().map(|v| v.why.clone())));
+        }
+        if found[0].1.is_some() || found[1..].iter().any(|f| f.1.is_none()) {
+            machinery_error(&format!("C07: protocol-model self-test failed: {:?}", found));
+        }
+        found
+    };
+    ev.set("protocol_model_selftest", json!(selftest.iter().map(|(m, w)| json!({"broken_variant": m, "rejected_because": w})).collect::<Vec<_>>()));
+    // the protocol model is only claimed while it is bound to the code
+    let bound = t.conform_fail == 0 && t.drift.is_empty();
+    if !bound {
+        println!(
+            "MODEL-DRIFT: property=C07 the protocol model (E4) does not describe this walker ({} of {} traces do not conform; e.g. {}); its all-interleavings result is NOT claimed for this run, the verdict rests on the schedule exploration of the real code alone",
+            t.conform_fail,
+            t.conform_fail + t.conform_ok,
+            t.drift.first().map(|s| s.as_str()).unwrap_or("-")
+        );
+    }
+    ev.set("slowest_units_ms", json!(t.slowest));
+    ev.set("protocol_model_bound_to_code", bound);
+    ev.set("protocol_model_drift_examples", json!(t.drift));
+    ev.set("impl_traces_replayed_through_model_conforming", t.conform_ok);
+    ev.set("impl_traces_replayed_through_model_not_conforming", t.conform_fail);
+    ev.set("protocol_model_configurations", t.model_configs);
+    ev.set("protocol_model_states", t.model_states);
+    ev.set("protocol_model_transitions", t.model_transitions);
+    ev.set("protocol_model_idle_polling_transitions", t.model_spin_transitions);
+    ev.set("protocol_model_terminal_states", t.model_terminal_states);
+    ev.set("protocol_model_cyclic_components_all_idle_polling_with_exit", t.model_cyclic_components);
+    ev.set("protocol_model_max_depth", t.model_max_depth);
+    ev.set("protocol_model_configurations_capped", t.model_capped);
+    ev.set("protocol_model_paths_replayed_on_impl", t.model_paths_replayed);
+    ev.set("protocol_model_states_on_replayed_paths", t.model_states_covered_by_replay);
+    ev.set("protocol_model_replay_sets_capped", t.model_replay_capped);
+    ev.set("protocol_model", format!("{}. Every interleaving of the model's steps (a step = the code between two hooked points; deques as vectors; crossbeam's steal_batch_and_pop as run without interference) is explored breadth-first with NO preemption bound and every placement of Retry answers within the budget; checked in every state / on the graph: no entry visited twice; when all workers have exited and no visitor asked to quit, every entry was visited exactly once; every cycle consists of idle-polling steps only and every strongly connected component without an outgoing edge is an all-exited state (termination under weak fairness). Binding: every implementation execution of this run (schedule exploration and model-path replays) is replayed through the model's step function — same worker, same next hooked point, same visits, same enabled set at every decision; and one schedule per leaf of a depth-first spanning forest of the model (restricted to the scheduler's enabledness rule) is executed on the implementation. A model-level violation counts only if the implementation shows it on the converted schedule.", plan.model_description));
+    ev.set("states", t.states.len() as u64 + if bound { t.model_states } else { 0 });
+    ev.set("transitions", t.steps + if bound { t.model_transitions } else { 0 });
     ev.set("traces_validated_against_impl", t.executions);
     ev.set("schedules", t.executions);
     ev.set("evaluations", t.executions);
